@@ -229,6 +229,11 @@ def cases(tier):
     for name in sorted(PYMATH):
         out.append(dict(kind='pymath', name=name))
     out.append(dict(kind='magnitudes'))
+    # every custom-formula entry of the shared library (nested calls with other arguments, several statements, call spellings, comments on
+    # continuation lines, assignments to parameters, block syntax): evaluated three times over, in different orders
+    for n, _d, _t in M.lib():
+        if n.startswith('custom') or n in ('qq_m1', 'qq_m2'):
+            out.append(dict(kind='libform', name=n))
     for i in range(0, len(defs), max(1, len(defs) // 40)):
         out.append(dict(kind='formatting', d=defs[i], seed=i))
     return out
@@ -552,6 +557,22 @@ def run_magnitudes(case):
     return viol, n
 
 
+def run_libform(case):
+    d, _t = M.lib_by_name(case['name'])
+    env = M.env()
+    f = R.config_read(M.pair_ini('LAMMPS', [('A', 'B', d)], 5.0, 6)).potentials[0].potentialFunction
+    viol, n = [], 0
+    for sweep in (RS, RS[::-1], RS[::2] + RS[1::2], RS):
+        for r in sweep:
+            n += 1
+            want = X.ev_defn(d, r, env).v
+            got = f(r)
+            if not abs(got - want) <= 1e-11 * (abs(want) + 1.0):
+                viol.append(dict(sig='library-formula-value', msg='%s = %s: evaluation %d (r=%r) gives %r, the formula means %r' % (case['name'], X.render_defn(d), n, r, got, want), detail={}))
+                return viol, n
+    return viol, n
+
+
 def run_case_variants(case):
     """names that differ only in case: the formula language is case-insensitive, so such a model must either evaluate to its
     documented meaning or be refused as a configuration error - never tabulate a different function"""
@@ -658,5 +679,5 @@ def run_formatting(case):
 
 
 def run_case(case):
-    viol, n = dict(defs=run_defs, formulas=run_formulas, probes=run_probes, formatting=run_formatting, case=run_case_variants, pymath=run_pymath, magnitudes=run_magnitudes)[case['kind']](case)
+    viol, n = dict(defs=run_defs, formulas=run_formulas, probes=run_probes, formatting=run_formatting, case=run_case_variants, pymath=run_pymath, magnitudes=run_magnitudes, libform=run_libform)[case['kind']](case)
     return dict(outcome='ok:%s:%s' % (case['kind'], case.get('section', '')) if not viol else 'violation', nontrivial=True, evals=max(1, n), violations=viol)
